@@ -17,7 +17,20 @@ def cases(rng, tier, focus):
         yield dict(D=D, ltr=ltr, lte=lte, dims=dims.tolist(), alpha=float(10.0 ** rng.uniform(-13, 2)), seed=int(rng.integers(0, 10 ** 6)),
                    intfeat=(rep % 5 == 3), shared=(rep % 4 == 2))
 
-def nontrivial(c): return (tuple(c['ltr']), tuple(c['lte']), c['D'], tuple(c['dims']), round(np.log10(c['alpha'])), c.get('intfeat', False), c.get('shared', False))
+# witness of the recorded finding 'alpha below the cut-off of the pseudo-inverse with a rank-deficient covariance' (known_findings.txt)
+PINNED = [dict(pin='alpha-below-pinv-cutoff', seed=0)]
+
+def check_pinned(c):
+    from skmatter.metrics import local_prediction_rigidity as lpr
+    rng = np.random.default_rng(c['seed']); D = 6
+    Xtr = [rng.normal(size=(3, D)) for _ in range(3)]          # 3 training structures, 6 features: the covariance of the structure averages has rank 3
+    Xte = [rng.normal(size=(2, D))]
+    L0, _ = lpr(Xtr, Xte, 0.0); L1, _ = lpr(Xtr, Xte, 1e-14)
+    expect(np.all(np.asarray(L1[0]) >= np.asarray(L0[0]) * (1 - 1e-9)), 'post[C20]:LPR-is-non-decreasing-in-alpha@alpha-below-the-cut-off-of-the-pseudo-inverse-with-a-rank-deficient-covariance',
+           f"LPR(alpha=0) = {L0[0]} > LPR(alpha=1e-14) = {L1[0]}")
+    return []
+
+def nontrivial(c): return c.get('pin') or (tuple(c['ltr']), tuple(c['lte']), c['D'], tuple(c['dims']), round(np.log10(c['alpha'])), c.get('intfeat', False), c.get('shared', False))
 
 def reference(Xtr, Xte, alpha, dims=None):
     allx = np.vstack(Xtr); sf = np.sqrt(np.mean(allx ** 2, axis=0).sum())
@@ -42,6 +55,7 @@ def reference(Xtr, Xte, alpha, dims=None):
     return out, lc, cpr, rank_diff
 
 def check(c):
+    if c.get('pin'): return check_pinned(c)
     from skmatter.metrics import local_prediction_rigidity as lpr, componentwise_prediction_rigidity as cprf
     rng = np.random.default_rng(c['seed']); D = c['D']
     Xtr = [rng.normal(size=(l, D)) * rng.uniform(0.5, 2.0, D) for l in c['ltr']]
